@@ -7,12 +7,50 @@
  *                                  `<path>#` its clones); `-` removes the script
  *   cfg [nobb] [noroot] [simul]    first line of a case: master without get_bb_uid() / get_root_uid(), simul_efun object
  *                                  /c20/simul registered as actor `se` (the plugin runs the case with the matching conf)
+ *   do m connect,<newoid>,<path>   the driver's mudlib_connect(): master connect() clones the user object
+ *   do m preload,<path>            the driver's preload_objects(): master epilog() names the file, master preload() loads it
+ *   do <oid> later,<op> | hb,<op>  the op is scheduled with call_out / runs in the object's next heart_beat; one backend tick
  *   do <oid> <op>                  run one op (see harness/mudlib/c20/body.h) in the object registered as <oid>
  *                                  (`m` = the master object), then log getuid/geteuid of every registered object
  *
  * All canonical output is produced by LPC (`VL ...`): `do`, `vs`, `cf`, `new`, `r`, `q` lines.
  */
 #include "vh.h"
+#include <time.h>
+#include "src/main.h"
+
+/* verification hook of src/backend.c: exactly one timer tick (call_heart_beat: heart beats, then call_out()) */
+extern void verif_tick (void);
+
+/* virtual clock: call_heart_beat() does `time (&current_time)` */
+time_t time (time_t * t)
+{
+  if (t)
+    *t = current_time;
+  return current_time;
+}
+
+/* `do <oid> later,<op>` / `do <oid> hb,<op>`: the op was only scheduled (call_out / heart_beat of that object); one
+ * tick of the backend's timer runs it - with that object as current_object, started by the driver, no caller */
+static void c20_tick (void)
+{
+  error_context_t econ;
+  save_context (&econ);
+  if (!setjmp (econ.context))
+    {
+      MAIN_OPTION (timer_flags) = TIMER_FLAG_HEARTBEAT | TIMER_FLAG_CALLOUT;
+      current_time += 2;
+      eval_cost = CONFIG_INT (__MAX_EVAL_COST__);
+      verif_tick ();
+      pop_context (&econ);
+    }
+  else
+    {
+      restore_context (&econ);
+      pop_context (&econ);
+      vh_out ("r !tick");
+    }
+}
 
 static int c20_ready = 0;
 
@@ -42,6 +80,24 @@ static int c20_cmd (char *line)
       object_t *reg = vh_obj ("reg");
       if (!reg || vh_apply_str (reg, "act", 2, tok + 1, 0, 0))
         vh_out ("r !harness");
+      else if (!strcmp (tok[1], "m") && !strncmp (tok[2], "connect,", 8))
+        {
+          /* the driver's connection handling up to the master apply: connect() creates the user object.  (No socket: the
+             driver then treats the connection as rejected, the object stays an ordinary object.) */
+          eval_cost = CONFIG_INT (__MAX_EVAL_COST__);
+          (void) mudlib_connect (4000, "verif");
+        }
+      else if (!strcmp (tok[1], "m") && !strncmp (tok[2], "preload,", 8))
+        {
+          eval_cost = CONFIG_INT (__MAX_EVAL_COST__);
+          preload_objects (0);      /* the driver's own preload loop: master epilog(), then master preload(file) */
+        }
+      else if (!strncmp (tok[2], "later,", 6) || !strncmp (tok[2], "hb,", 3))
+        {
+          c20_tick ();
+          if (vh_apply_str (reg, "tick_done", 0, tok, 0, 0))
+            vh_out ("r !harness");
+        }
       return 1;
     }
   if (!strcmp (tok[0], "script") && n == 3)
